@@ -126,6 +126,30 @@ def enum_cases(tier):
 def run_shard(ctx):
     from emd import spectra as SP
     rng = ctx.rng
+    n = NRANDOM[ctx.tier] // ctx.nshards
+    for i in range(n):
+        if ctx.out_of_time():
+            break
+        T, M, K = int(rng.integers(1, 13)), int(rng.integers(1, 4)), int(rng.integers(1, 4))
+        e1, _ = SP.define_hist_bins(float(rng.uniform(1, 5)), float(rng.uniform(8, 40)), int(rng.integers(1, 6)), scale=gens.pick(rng, ['linear', 'log']))
+        e2, _ = SP.define_hist_bins(float(rng.uniform(.1, 1)), float(rng.uniform(2, 6)), int(rng.integers(1, 6)), scale=gens.pick(rng, ['linear', 'log']))
+        infr = rng.uniform(e1[0] - .3 * (e1[-1] - e1[0]), e1[-1] + .3 * (e1[-1] - e1[0]), (T, M))
+        infr2 = rng.uniform(e2[0] - .3 * (e2[-1] - e2[0]), e2[-1] + .3 * (e2[-1] - e2[0]), (T, M, K))
+        r1, r2 = rng.random((T, M)), rng.random((T, M, K))
+        infr[r1 < .1] = rng.choice(e1, int((r1 < .1).sum()))
+        infr2[r2 < .1] = rng.choice(e2, int((r2 < .1).sum()))
+        infr2[(r2 > .95)] *= -1
+        inam2 = rng.uniform(.1, 3, (T, M, K))
+        if rng.random() < .3:
+            inam2[rng.integers(0, T), :, :] = 0.0  # a time point without any energy
+            ctx.count('with_silent_time_point')
+        mode = gens.pick(rng, ['energy', 'amplitude'])
+        case = {'kind': 'holo', 'infr': infr, 'infr2': infr2, 'inam2': inam2, 'e1': e1, 'e2': e2, 'mode': mode}
+        try:
+            compare(ctx, infr.copy(), infr2.copy(), inam2.copy(), e1, e2, mode, case, 'random')
+        except Exception as e:
+            ctx.violation('exception:%s' % type(e).__name__, 'holospectrum raised %s: %s' % (type(e).__name__, str(e)[:120]), case)
+
     idx = 0
     for shp, e1, e2, reduced in enum_cases(ctx.tier):
         T, M, K = shp
@@ -148,27 +172,6 @@ def run_shard(ctx):
                 if idx < 20 and ctx.shard == 0:
                     ctx.sample({'shape': shp, 'carrier_edges': np.round(e1, 3), 'am_edges': np.round(e2, 3), 'infr': infr.reshape(-1), 'infr2': infr2.reshape(-1)})
     ctx.count('exhaustive_done')
-    n = NRANDOM[ctx.tier] // ctx.nshards
-    for i in range(n):
-        if ctx.out_of_time():
-            break
-        T, M, K = int(rng.integers(1, 13)), int(rng.integers(1, 4)), int(rng.integers(1, 4))
-        e1, _ = SP.define_hist_bins(float(rng.uniform(1, 5)), float(rng.uniform(8, 40)), int(rng.integers(1, 6)), scale=gens.pick(rng, ['linear', 'log']))
-        e2, _ = SP.define_hist_bins(float(rng.uniform(.1, 1)), float(rng.uniform(2, 6)), int(rng.integers(1, 6)), scale=gens.pick(rng, ['linear', 'log']))
-        infr = rng.uniform(e1[0] - .3 * (e1[-1] - e1[0]), e1[-1] + .3 * (e1[-1] - e1[0]), (T, M))
-        infr2 = rng.uniform(e2[0] - .3 * (e2[-1] - e2[0]), e2[-1] + .3 * (e2[-1] - e2[0]), (T, M, K))
-        r1, r2 = rng.random((T, M)), rng.random((T, M, K))
-        infr[r1 < .1] = rng.choice(e1, int((r1 < .1).sum()))
-        infr2[r2 < .1] = rng.choice(e2, int((r2 < .1).sum()))
-        infr2[(r2 > .95)] *= -1
-        inam2 = rng.uniform(.1, 3, (T, M, K))
-        mode = gens.pick(rng, ['energy', 'amplitude'])
-        case = {'kind': 'holo', 'infr': infr, 'infr2': infr2, 'inam2': inam2, 'e1': e1, 'e2': e2, 'mode': mode}
-        try:
-            compare(ctx, infr.copy(), infr2.copy(), inam2.copy(), e1, e2, mode, case, 'random')
-        except Exception as e:
-            ctx.violation('exception:%s' % type(e).__name__, 'holospectrum raised %s: %s' % (type(e).__name__, str(e)[:120]), case)
-
 
 def finalize(agg, tier):
     c = agg['counters']
